@@ -224,7 +224,7 @@ func TestC05(t *testing.T) {
 		}
 		for _, r := range refused {
 			for _, we := range []bool{false, true} {
-				for _, kind := range []string{"fin", "rst"} {
+				for _, kind := range []string{"fin", "rst", "wsclose"} {
 					k++
 					if k%nsh != sh {
 						continue
